@@ -24,7 +24,7 @@ while i < len(args):
         runs = int(args[i + 1]); i += 2; continue
     repo = args[i]; i += 1
 
-env = dict(os.environ, GOFLAGS="-mod=mod", GOPROXY="off", GOSUMDB="off", GOTOOLCHAIN="local")
+env = dict(os.environ, GOFLAGS="-mod=mod -trimpath", GOPROXY="off", GOSUMDB="off", GOTOOLCHAIN="local")
 base = json.load(open("/root/.vp/BASELINE.json"))
 stable = set(base["stable_pass"])
 passed, failed, seen_pkgs = set(), set(), set()
